@@ -126,6 +126,14 @@ def gen_contexts(run):
     for text, origin in spaces.all_programs(run):
         cases.append({"text": text, "opts": {}, "origin": origin, "gen": "ctx"})
         cases.append({"text": text, "opts": full, "origin": origin, "gen": "ctx"})
+    # every sequence of <= 3 (thorough 4) statements over the FOR/NEXT/GOSUB/RETURN structure alphabet, balanced or not
+    n = 0
+    for st in spaces.any_structures(3 if run.tier == "quick" else 4):
+        for text, lay in spaces.layouts_of(st):
+            cases.append({"text": text, "opts": {}, "origin": f"structure:{lay}", "gen": "ctx"})
+        n += 1
+    run.states += n
+    run.transitions += n
     return cases
 
 
